@@ -746,6 +746,13 @@ func (x *Exec) block(st *State, b *ssa.BasicBlock, pred *ssa.BasicBlock, k Cont)
 				}
 				continue
 			}
+			if strings.HasPrefix(key, "arr@") && old.K == KU {
+				// the contents of a slice: an array-sorted term, whatever it was built from
+				if srt := x.arraySortOf(old.T); srt != "" {
+					st.Heap[key] = SVal{K: KU, T: q(x.D.fresh(key+"@loop", srt)), GoT: old.GoT}
+					continue
+				}
+			}
 			st.Heap[key] = x.freshLike(st, key+"@loop", old, old.GoT)
 		}
 		x.exposeLoopVars(st, b)
@@ -1412,4 +1419,47 @@ func (x *Exec) mapArrays(st *State, m SVal, vs string) (has, vals string) {
 		st.Heap[m.Loc+"#val"] = SVal{K: KU, T: vals}
 	}
 	return
+}
+
+// arraySortOf: the SMT sort of an array-valued term (a declared constant, sl!arr!X(...), store(...), a constant array).
+func (x *Exec) arraySortOf(t string) string {
+	t = strings.TrimSpace(t)
+	if srt, ok := x.D.consts[strings.Trim(t, "|")]; ok && strings.HasPrefix(srt, "(Array") {
+		return srt
+	}
+	if strings.HasPrefix(t, "(|sl!arr!") {
+		rest := strings.TrimPrefix(t, "(|sl!arr!")
+		if i := strings.Index(rest, "|"); i > 0 {
+			return "(Array Int " + rest[:i] + ")"
+		}
+	}
+	if strings.HasPrefix(t, "(store ") {
+		// (store A i v): the sort of A
+		inner := strings.TrimPrefix(t, "(store ")
+		depth, end := 0, -1
+		for i, c := range inner {
+			if c == '(' {
+				depth++
+			} else if c == ')' {
+				depth--
+				if depth == 0 {
+					end = i + 1
+					break
+				}
+			} else if c == ' ' && depth == 0 {
+				end = i
+				break
+			}
+		}
+		if end > 0 {
+			return x.arraySortOf(inner[:end])
+		}
+	}
+	if strings.HasPrefix(t, "((as const (Array Int ") {
+		rest := strings.TrimPrefix(t, "((as const ")
+		if i := strings.Index(rest, "))"); i > 0 {
+			return rest[:i+1]
+		}
+	}
+	return ""
 }
